@@ -172,7 +172,8 @@ theorem parse_children (hv : Valid G A C) (w : List Token) : ∀ (cs : List Tree
       have : d + (c :: cs).length = d + 1 + cs.length := by simp; omega
       rw [this]; exact hit2
 
-theorem parse_tree (hv : Valid G A C) (w : List Token) : ∀ {t : Tree}, ParseTree G t → PB A C w t := by
+theorem parse_tree (hv : Valid G A C) (w : List Token) (hw : ∀ t ∈ w, t.sym ≠ A.eoi) :
+    ∀ {t : Tree}, ParseTree G t → PB A C w t := by
   intro t ht
   induction ht with
   | leaf tok hnt =>
@@ -193,7 +194,8 @@ theorem parse_tree (hv : Valid G A C) (w : List Token) : ∀ {t : Tree}, ParseTr
       simpa [List.getElem?_drop, Tree.yield] using this
     have hla : lookahead A w k = tok.sym := by simp [lookahead, hwk]
     refine ⟨s', Reaches.step ?_, hadv⟩
-    simp only [step, hla, Automaton.actionOf, ha', hwk, Tree.yield, List.length_singleton]
+    simp only [step, nextAction_of_not_client (clientEoi_false_of_forall hw _), hla, Automaton.actionOf, ha',
+      hwk, Tree.yield, List.length_singleton]
   | node p cs hp hcs hroots ih =>
     intro st k pi d la q rest hit hq hx hd hfirst
     have hs := Cert.lt_of_mem hit
@@ -233,19 +235,50 @@ theorem parse_tree (hv : Valid G A C) (w : List Token) : ∀ {t : Tree}, ParseTr
     have hdropst : List.drop p.rhs.length (st' ++ st) = st := by
       rw [← hst'len]; simp
     have hle : p.rhs.length ≤ (st' ++ st).length := by simp [hst'len]
-    simp only [step, Automaton.actionOf, hcomp, hAp, hle, if_true, htake, hdropst, hg', hm,
-      List.reverse_reverse]
+    simp only [step, nextAction_of_not_client (clientEoi_false_of_forall hw _), Automaton.actionOf, hcomp,
+      hAp, hle, if_true, htake, hdropst, hg', hm, List.reverse_reverse]
 
 end Emboss.Lr1
 
 namespace Emboss.Lr1
 variable {G : Grammar} {A : Automaton} {C : Cert}
 
+/-- the leaves of a parse tree whose root is not the end-of-input marker are not client
+end-of-input tokens (no production mentions the marker) -/
+theorem yield_no_eoi (hv : Valid G A C) : ∀ {t : Tree}, ParseTree G t → t.root ≠ G.eoi →
+    ∀ tok ∈ t.yield, tok.sym ≠ G.eoi := by
+  intro t ht
+  induction ht with
+  | leaf tok _ =>
+    intro hr tok' h
+    simp only [Tree.yield, List.mem_singleton] at h
+    subst h; exact hr
+  | node p cs hp _ hroots ih =>
+    intro _ tok h
+    have hrhs : ∀ x ∈ p.rhs, x ≠ G.eoi := (hv.wf.2.2.2.2.2.1 p (List.mem_append_left _ hp)).2
+    simp only [Tree.yield] at h
+    have key : ∀ (l : List Tree), (∀ c ∈ l, c ∈ cs) → tok ∈ Tree.yieldL l → tok.sym ≠ G.eoi := by
+      intro l
+      induction l with
+      | nil => intro _ h'; simp [Tree.yieldL] at h'
+      | cons c l ihl =>
+        intro hsub h'
+        simp only [Tree.yieldL, List.mem_append] at h'
+        rcases h' with h' | h'
+        · have hc := hsub c List.mem_cons_self
+          refine ih c hc (hrhs _ ?_) tok h'
+          rw [← hroots]; exact List.mem_map_of_mem hc
+        · exact ihl (fun c' hc' => hsub c' (List.mem_cons_of_mem _ hc')) h'
+    exact key cs (fun _ h' => h') h
+
 /-- From the initial configuration the parser reaches the accepting configuration of `t`. -/
 theorem reaches_accept (hv : Valid G A C) {t : Tree} {w : List Token} (hd : Derives G t w) :
     ∃ s', Reaches A w init ⟨[(s', t)], w.length⟩ ∧ step A w ⟨[(s', t)], w.length⟩ = .done (.accept t) := by
   obtain ⟨hp, hr, hy⟩ := hd
-  have hpb := parse_tree (A := A) hv w hp
+  have hw : ∀ t ∈ w, t.sym ≠ A.eoi := by
+    rw [hv.eoi_eq, ← hy]
+    exact yield_no_eoi hv hp (by rw [hr]; exact hv.wf.2.2.2.2.1)
+  have hpb := parse_tree (A := A) hv w hw hp
   have hit : (⟨C.seedIdx, 0, G.eoi⟩ : Item) ∈ C.itemsOf (topState []) := hv.start.1
   have hla : lookahead A w w.length = G.eoi := by simp [lookahead, hv.eoi_eq]
   obtain ⟨s', hreach, hit'⟩ := hpb [] 0 C.seedIdx 0 G.eoi G.seed [] hit hv.ruleAt_seed
@@ -258,7 +291,8 @@ theorem reaches_accept (hv : Valid G A C) {t : Tree} {w : List Token} (hd : Deri
   have hcomp := hv.complete _ hs' _ hit' G.seed hv.ruleAt_seed (by simp [Grammar.seed])
   simp only [if_true] at hcomp
   have hla' : lookahead A w w.length = A.eoi := by rw [hv.eoi_eq]; exact hla
-  simp only [step, topState, hla, Automaton.actionOf, hcomp]
+  simp only [step, topState, nextAction_of_not_client (clientEoi_false_of_forall hw _), hla,
+    Automaton.actionOf, hcomp]
   simp [← hv.eoi_eq]
 
 theorem run_complete (hv : Valid G A C) {t : Tree} {w : List Token} (hd : Derives G t w) :
